@@ -202,7 +202,8 @@ func stateFrom(ctx context.Context) *state {
 // payload text of event i: JSON-hostile on purpose (quotes, escapes, text that looks like SSE / MIME
 // framing, multi-byte runes) so a parser that resynchronises on payload text would be caught.
 func payloadText(seed int64, i, size int) string {
-	const alphabet = "abcdefghij\"\\/\n\r\t: ping\n\nevent: complete\n\ndata: {}\r\n--graphql--\r\n<>&é漢🙂 "
+	// also printf verbs: a payload must never be interpreted as a format string
+	const alphabet = "abcdefghij\"\\/\n\r\t: ping\n\nevent: complete\n\ndata: {}\r\n--graphql--\r\n<>&é漢🙂 %d%s%%%v100%\u2028"
 	var blk strings.Builder
 	r := rand.New(rand.NewSource(seed + int64(i)*31))
 	rs := []rune(alphabet)
